@@ -118,8 +118,15 @@ def run(ids, tier):
                 }
                 print(sid, p, entry["runs"][p])
         entry["caught"] = any(x["caught"] for x in entry["runs"].values())
-        results[sid] = entry
-        json.dump(results, open(results_path, "w"), indent=1, sort_keys=True)
+        # several `seeded.py run` processes may be going: merge under a lock instead of overwriting
+        import fcntl
+        with open(results_path + ".lock", "w") as lk:
+            fcntl.flock(lk, fcntl.LOCK_EX)
+            results = json.load(open(results_path)) if os.path.exists(results_path) else {}
+            results[sid] = entry
+            tmp = results_path + ".tmp"
+            json.dump(results, open(tmp, "w"), indent=1, sort_keys=True)
+            os.replace(tmp, results_path)
     return 0
 
 
